@@ -109,12 +109,15 @@ def make_scenarios(rng, tier, seed):
         nov = None if r_ < 0.3 else (0 if r_ < 0.42 else rng.randrange(0, NFFT))     # explicit 0 is a value, not "unset"
         if n > 256:
             # long records: the model's segment FFT is the naive O(NFFT^2) sum (array-backed reads), so keep the
-            # number of segments of a long record near 120 and the number of long records per run bounded
+            # number of segments of a long record near 60 and the number of long records per run bounded (the twiddle factors are recomputed per term)
             n_long += 1
-            if n_long > 24:
+            if n_long > 10:
                 n = rng.choice([128, 200, 256])
             else:
-                min_step = min(NFFT, (n - NFFT) // 120 + 1)
+                nch = min(nch, 4)
+                min_step = min(NFFT, (n - NFFT) // 60 + 1)
+                if nov is None and NFFT - NFFT // 2 < min_step:
+                    nov = NFFT // 2
                 if nov is not None and NFFT - nov < min_step:
                     nov = NFFT - min_step
         wk = rng.choice(['hann', 'hann', 'hamming', 'rand'])
